@@ -399,6 +399,10 @@ static void c08_case(uint64_t idx)
 	uint32_t threads = 1 + vrng_below(&r, 8);
 	static const uint64_t bss[] = { 4096, 8192, 16384, 65536, 262144, 1u << 20 };
 	uint64_t bs = bss[vrng_below(&r, 6)];
+	// a sixth of the cases: block sizes just below the points where the size fields of the Block Header grow by a
+	// byte (2^7, 2^14; thorough also 2^21) - an incompressible Block then needs the wider field although block_size
+	// itself does not
+	if (vrng_chance(&r, 1, 6)) { unsigned w = vrng_below(&r, A.thorough ? 3 : 2); bs = (w == 0 ? 128u : (w == 1 ? 16384u : 2097152u)) - 1 - vrng_below(&r, w == 2 ? 12 : 4); hx_count("block_size_below_field_width_boundary", 1); }
 	static const uint32_t tos[] = { 0, 0, 1, 20 };
 	uint32_t timeout = tos[vrng_below(&r, 4)];
 	// input: sizes around block_size x threads, compressible or not
@@ -430,7 +434,9 @@ static void c08_case(uint64_t idx)
 	}
 	bool faulted = false;
 	enc_run e; memset(&e, 0, sizeof(e)); vrng_init(&e.pr, vrng_u64(&r), 1, 2, 3);
-	if (lifecycle == 4) e.s.allocator = &mon.a;
+	// a third of the re-init lifecycles: one of the first allocations of the RE-initialisation fails
+	bool reinit_fault = (lifecycle == 2 || lifecycle == 3) && vrng_chance(&r, 1, 3);
+	if (lifecycle == 4 || reinit_fault) e.s.allocator = &mon.a;
 	e.tiny = vrng_chance(&r, 1, 8) && total < 20000; e.timeout = timeout;
 	e.end_after = (lifecycle >= 1 && lifecycle <= 3) ? (int64_t)(1 + vrng_below(&r, 30)) : -1;
 	hx_sample("c08 cfg=%s kind=%s total=%zu threads=%u bs=%" PRIu64 " timeout=%u segs=%u lifecycle=%d", cfg.desc, gd_names[kind], total, threads, bs, timeout, nseg, lifecycle);
@@ -499,8 +505,15 @@ static void c08_case(uint64_t idx)
 		if (lifecycle == 3) mt2.threads = 1 + (threads % 8);
 		static const uint64_t bs2[] = { 4096, 32768, 65536, 131072 };
 		mt2.block_size = vrng_chance(&r, 1, 2) ? bs : bs2[vrng_below(&r, 4)];
+		if (reinit_fault) alloc_mon_fail_nth_from_now(&mon, 1 + vrng_below(&r, 6));
 		ret = lzma_stream_encoder_mt(&e.s, &mt2);
+		if (reinit_fault) alloc_mon_reset_plan(&mon);
 		hx_count(lifecycle == 2 ? "reinit_same_threads" : "reinit_other_threads", 1);
+		if (reinit_fault && ret == LZMA_MEM_ERROR) {
+			// the failed re-initialisation must leave a handle that can be ended (it is, below) with nothing left
+			hx_count("reinit_alloc_failure_reported", 1);
+			faulted = true; failed = true;
+		} else
 		if (ret != LZMA_OK) { hx_violation("C08", "reinit-failed|mt_enc", idx, "re-initialising returned %s", lzma_ret_name(ret)); failed = true; }
 		else {
 			// encode everything again with the re-initialised handle
@@ -524,6 +537,10 @@ static void c08_case(uint64_t idx)
 	lzma_end(&e.s);
 	sched_stats ss; sched_get_stats(&ss);
 	sched_case_end();
+	if (reinit_fault) {
+		if (mon.live_blocks) hx_violation("C08", "leak-after-allocation-failure|mt_enc|reinit", idx, "%" PRIu64 " blocks still allocated after lzma_end following a re-initialisation with a failed allocation; cfg=%s threads=%u", mon.live_blocks, cfg.desc, threads);
+		if (mon.errors) hx_violation("C08", "allocator-misuse|mt_enc|reinit", idx, "%s; cfg=%s threads=%u", mon.errmsg, cfg.desc, threads);
+	}
 	if (lifecycle == 4) {
 		hx_count(faulted ? "alloc_failure_reported" : "alloc_failure_not_reached", 1);
 		if (mon.live_blocks) hx_violation("C08", "leak-after-allocation-failure|mt_enc", idx, "%" PRIu64 " blocks still allocated after lzma_end (allocation failure plan at=%" PRId64 " from=%" PRId64 "); cfg=%s threads=%u", mon.live_blocks, mon.fail_at, mon.fail_from, cfg.desc, threads);
